@@ -16,6 +16,19 @@ CHECKS = {
             "on any path, every exit keeps tracing on, no mutating operation on host values. Decides the "
             "containment/trace-retention clauses for all programs and inputs at once; does not decide side "
             "effects of user expressions.", "4/C01"),
+    "C09": ("who-may-call / thread-role reachability over the resolved call graph, exactly-once path-shape rules, escape analysis of flush, lock discipline",
+            "Static rules deciding, for every schedule and fault placement, the structural clauses: conversion and "
+            "sending are unreachable from the application thread, each hand-over is submitted exactly once on every "
+            "path, flush lets no task outcome escape and waits per future, submit-after-close raises before queueing. "
+            "Does not decide timing or grpc-internal retries.", "4/C09"),
+    "C14": ("path-condition/dominance rules over start/shutdown, origin of the restore arguments, step-isolation via escape analysis",
+            "Static rules deciding for every start/shutdown history and fault subset: start effects only when not "
+            "started, settrace only when tracing is enabled, restore passes exactly the values saved before install "
+            "(sys to sys, threading to threading), a failing shutdown step never skips a later step.", "4/C14"),
+    "C20": ("plugin call-site isolation: extension-point call sites from the resolved call graph, guard-inside-loop rule, loader shape",
+            "Static rule over every plugin callback site found by callee resolution: guarded by a non-re-raising "
+            "handler for Exception, inside the loop over plugins, in the site's function or on every in-repo call "
+            "path; loader skips inactive plugins and sorts by order(). Holds for every fault subset at once.", "4/C20"),
 }
 
 NOT_YET = "check under construction in this session (static rule designed in DESIGN.md section 4, not yet armed)"
